@@ -33,6 +33,7 @@ func init() {
 		"Known":       rtKnown,
 		"ClearKnown":  func(fr *frame, a []value) value { fr.i.ex.known = nil; return nil },
 		"NoPanic":     rtNoPanic,
+		"Bounded":     rtBounded,
 		"Note":        rtNote,
 		"AllocBudget": func(fr *frame, a []value) value { fr.i.jb.allocBudget = asInt64(a[0]); return nil },
 		"Freeze":      rtFreeze,
@@ -313,4 +314,31 @@ func (i *interpreter) freezeCells(v value, p *value, path string, seen map[inter
 	case structure, array, []value, *omap, iface, *value, *closure:
 		i.freezeWalk(v, path, seen)
 	}
+}
+
+type stepBudgetExceeded struct{}
+
+// rtBounded runs f under a step budget; exceeding it unwinds f and returns false.
+func rtBounded(fr *frame, a []value) value {
+	i := fr.i
+	budget := asInt64(a[0])
+	saved := i.budgetAt
+	i.budgetAt = i.steps + budget
+	depth := i.depth
+	finished := true
+	func() {
+		defer func() {
+			if r := recover(); r != nil {
+				if _, ok := r.(stepBudgetExceeded); ok {
+					finished = false
+					i.depth = depth
+					return
+				}
+				panic(r)
+			}
+		}()
+		call(i, fr, token.NoPos, a[1], nil)
+	}()
+	i.budgetAt = saved
+	return finished
 }
